@@ -2,3 +2,5 @@ import PG.Props.C11
 #print axioms PG.C11_prefix
 #print axioms PG.C11_kinds
 #print axioms PG.C11_magic
+#print axioms PG.C11_unaligned
+#print axioms PG.C11_parseAt_zero
